@@ -101,7 +101,7 @@ def make_exact(cases):
             elif cls == 'M':
                 # known finding F5: complete manifold with mixed saturation carries the O(dt^3) splitting error of the integrator
                 x = abs(dt) * nH
-                ctx.close(f'classM.third-order-bound[{integ}]', e1, 0.1 * nsteps * x ** 3 + 1e-9, 'error exceeds the third-order splitting bound', detail)
+                ctx.close(f'classM.third-order-bound[{integ}]', e1, 1.0 * nsteps * x ** 3 + 1e-9, 'error exceeds the third-order splitting bound', detail)
                 if e1 > 1e-7:
                     # recorded, not demanded: the halving ratio tends to 8 only asymptotically (observed 2.99 .. 9 at these step sizes);
                     # first- and second-order defects are excluded by the cubic bound above
@@ -180,7 +180,7 @@ SPEC = {
              'full-sector state with maximal bond dimensions, both integrators, dt imaginary / real / complex (|dt| in [0.05, 0.3]), 1..3 steps, Krylov '
              'dimension >= local dimension. The manifold is classified from the quantum numbers alone: class E (every bond saturated on one side for all '
              'charge blocks) must be exact to 1e-9; class M (sector-complete, mixed saturation) is the known finding and must still obey the third-order '
-             'bound 0.1 n (|dt| ||H||)^3 (the halving ratio is recorded). Reversibility: single-site, any bond profile (random / all-one / maximal / over-complete), any complex dt, '
+             'bound n (|dt| ||H||)^3 (the halving ratio is recorded). Reversibility: single-site, any bond profile (random / all-one / maximal / over-complete), any complex dt, '
              'n steps dt then n steps -dt. distinct = (integrator, model, L, class, dt kind, steps, profile).'),
     'deciding': ['exact-on-complete-manifold[singlesite]', 'exact-on-complete-manifold[twosite]', 'reversible', 'second-return==1-for-imaginary-dt'],
     'workloads': [
